@@ -263,7 +263,7 @@ def run(R):
     quick = R.tier == 'quick'
     ts = [1, 2, 5, 6, 8] if quick else list(range(1, 13))
     maxn = 4 if quick else 6
-    pct = 150 if quick else 1200
+    pct = 400 if quick else 1200
     nreps = len(H.REPS_LIST)
     R.bounds = {'sweep_positions_t': ts, 'catalogue_kinds': H.K, 'integer_parameter': '-2..100000',
                 'cause_chain_depth': '0..2', 'sequence_lengths': f'1..{maxn}', 'representative_kinds': nreps,
